@@ -26,10 +26,22 @@ def episode_for(project, rng, n_rules=10):
         mpaths.append(rng.choice(subs))
     for mp in mpaths:
         ext = rng.random() < 0.25
-        s0 = ep.scan(mpath=mp, ext=ext)
+        # level limit x exclusion: an entry below mp that no remaining file mentions (an import of an excluded module
+        # by a remaining file is outside the input language, DESIGN section 14, O1)
+        excl = None
+        entries = [d for d in project["dirs"] if len(d) > len(mp) and d[:len(mp)] == mp] + \
+                  [f["name"] for f in project["files"] if f["name"][:len(mp)] == mp]
+        rng.shuffle(entries)
+        for x in entries[:6]:
+            outside = [st for st in project["stmts"] if st["file"][:len(x)] != x]
+            if rng.random() < 0.35 and not any(x[-1] in st["module"] or x[-1] in st["names"] for st in outside):
+                excl = {"kind": "glob", "patterns": [sc.glob_shapes(project, x, rng)["*/text"]]}
+                break
+        kw = {"excl": excl} if excl else {}
+        s0 = ep.scan(mpath=mp, ext=ext, **kw)
         below = [m for m in mods if m[:len(mp)] == mp]
         for k in range(1, max(2, depth - len(mp) + 1)):
-            sk = ep.scan(mpath=mp, limit=k, ext=ext)
+            sk = ep.scan(mpath=mp, limit=k, ext=ext, **kw)
             ep.law("quotient", [s0, sk])
             keep = len(mp) + k
             visible = [m for m in below if len(m) <= keep] + [mp[:i] for i in range(1, len(mp))]
